@@ -15,7 +15,9 @@ META = dict(
                "tied to /repo on every run: 1-6 messages are processed concurrently by the real receiver.callback on a "
                "virtual-time loop, the global fine-grained log must be an interleaving of the model's per-message "
                "sequences (compared inside Coq), and the Boolean form of the statement is evaluated on every observed "
-               "sequence; a Python oracle re-checks the statement at every prefix of the real log.",
+               "sequence; a Python oracle re-checks the statement at every prefix of the real log. Ack callables are plain functions, "
+               "`async def`s, or plain functions returning a Future / Task / object with __await__ (the acknowledgement of the last is "
+               "made only when it is awaited).",
     level_note="Scope (the reading that demands less): malformed / unknown-task messages are never acknowledged by the code "
                "and are outside the statement (C01 covers them); hook failure is outside the quantifier, but the ack "
                "position / at-most-once theorems hold with raising hooks too. 'Task function finished' for a sync function "
